@@ -95,7 +95,7 @@ BadWrite(s, ev, e, echoTo, timed) ==
        THEN "C08c_gap_not_doubled"
   ELSE ""
 
-BadAnswer(s, e, timed) ==
+BadAnswer(s, e, echoTo, timed) ==
   LET i == e.i  t == e.t IN
   IF i \notin Ids \/ s.callT[i] < 0 THEN "C07_answer_without_call"
   ELSE IF s.ended[i] THEN "C07_answered_twice"
@@ -114,13 +114,18 @@ BadAnswer(s, e, timed) ==
   ELSE IF timed /\ e.e = "Raise" /\ e.k = "protocol" /\ s.rep[i] <= 1 /\ s.nw[i] >= 1 /\ ~s.dist[i]
           /\ t - s.callT[i] - s.nDur[i] < s.to[i] - RoundSl /\ s.nw[i] < Budget(s, i)
        THEN "C08b_gave_up_early"
+  \* C08b, the other way round: the caller's own time-out ended the call with transmissions left in the budget - then the
+  \*       machinery must have been retrying up to then: an attempt lasts at most 8x the echo wait plus 8x the reply wait
+  ELSE IF timed /\ e.e = "Raise" /\ e.k = "protocol" /\ s.rep[i] <= 1 /\ s.nw[i] >= 1 /\ ~s.dist[i]
+          /\ s.nw[i] < Budget(s, i) /\ t - s.lastW[i] > 2 * BackoffCap * echoTo + RoundSl
+       THEN "C08b_retry_not_made"
   ELSE ""
 
 \* timed = FALSE for executions driven by the Director (virtual time is not meaningful there)
 Bad(s, ev, l, echoTo, timed) ==
   LET e == ev[l] IN
   CASE e.e = "Write"   -> BadWrite(s, ev, e, echoTo, timed)
-    [] e.e \in {"Return", "Raise"} -> BadAnswer(s, e, timed)
+    [] e.e \in {"Return", "Raise"} -> BadAnswer(s, e, echoTo, timed)
     \* C07c "never hangs"
     [] e.e = "Hang"    -> "C07c_hang"
     \* C09a "the sender ... keeps serving": the event-loop thread itself must never block for ever
